@@ -171,6 +171,9 @@ def c13_check(info):
             again = O.run(r.store, op, c)
             if again[0] != "ok":
                 yield "store_metadata cannot be repeated on the same store instance after the failed call", {"retry": again[0]}
+            elif fscen.visible(fscen.absof(snapshot(root)), c) != ref["vis"]:
+                # (the retry reported success: the document must now be the one the fault-free call leaves)
+                yield "a store_metadata repeated on the same store instance after the failed call reports success without storing the document", {}
         if sprobe[target][1:] != ini["probe"][target][1:]:
             yield "after the failed store_metadata the previous document version is not intact", {}
 
